@@ -573,7 +573,7 @@ func (wd *world) step(a act, rng *rand.Rand) bool {
 func (wd *world) armed() bool {
 	for _, x := range wd.ss {
 		x.conn.mu.Lock()
-		a := x.conn.failWDL && !x.conn.closed
+		a := (x.conn.failWDL && !x.conn.closed) || x.conn.wdlFired // waiting, or happened and not yet logged
 		x.conn.mu.Unlock()
 		if a {
 			return true
